@@ -826,3 +826,124 @@ Proof.
     + now apply step_fields.
 Qed.
 End RT.
+
+(* ================= top-level statements ================= *)
+Lemma zero_struct_zlike e k sid : wf_schema k e -> (S k <= 64)%nat -> zlike e (TStruct sid) (zero_struct e sid).
+Proof.
+  intros Hwf Hk. unfold zero_struct. apply (zero_zlike e (S k)); [|assumption].
+  cbn [nest_ok]. apply forallb_forall. intros fd Hin. apply (ty_nest_nest e k). now apply (wf_nest k e Hwf sid).
+Qed.
+
+(* ReadFrom of the encoding with unknown fields before any member and after the last one, into any admissible
+   target, followed by anything that cannot be mistaken for a member *)
+Theorem decode_into_extras e k sid vs prior Js tail :
+  wf_schema k e -> has_type e (TStruct sid) (VStruct vs) -> zlike e (TStruct sid) prior ->
+  junks_ok None (fields_of e sid) Js ->
+  (forall fd, In fd (fields_of e sid) -> follows (ftag fd) tail) ->
+  (need_list vs + k + 3 <= 2 * length (encx_fields e vs (fields_of e sid) Js ++ tail) + 64)%nat ->
+  decode_into e sid prior (encx_fields e vs (fields_of e sid) Js ++ tail) = DOk (norm_struct e sid (VStruct vs)) tail.
+Proof.
+  intros Hwf Hty Hp HJ Htail Hfuel. unfold decode_into, norm_struct. rewrite norm_str.
+  set (bs := encx_fields e vs (fields_of e sid) Js ++ tail) in *.
+  replace (4 * length bs + 64)%nat with (S (4 * length bs + 63)) by lia.
+  destruct (struct_priors1 e (4 * length bs + 63) sid prior Hp) as (ps & -> & Hps).
+  destruct (rt_all e k Hwf (S (4 * length bs + 63))) as (_ & _ & _ & _ & HF).
+  inversion Hty as [| | | | |? ? Hvs]; subst; [discriminate|].
+  assert (H1 : dec_fields (S (4 * length bs + 63)) e (fields_of e sid) ps bs = DOk (norm_fields e vs (fields_of e sid)) tail).
+  { unfold bs. apply (HF (fields_of e sid) vs ps Js None tail); try assumption.
+    - now apply members_ok.
+    - apply (wf_asc k e Hwf).
+    - unfold fuel_ok. fold bs. lia. }
+  now rewrite H1.
+Qed.
+
+Theorem roundtrip_into e k sid vs prior rest :
+  wf_schema k e -> has_type e (TStruct sid) (VStruct vs) -> zlike e (TStruct sid) prior ->
+  (forall fd, In fd (fields_of e sid) -> follows (ftag fd) rest) ->
+  (need_list vs + k + 3 <= 2 * length (encode e sid (VStruct vs) ++ rest) + 64)%nat ->
+  decode_into e sid prior (encode e sid (VStruct vs) ++ rest) = DOk (norm_struct e sid (VStruct vs)) rest.
+Proof.
+  intros Hwf Hty Hp Htail Hfuel.
+  assert (Hl : length (fields_of e sid) = length vs).
+  { inversion Hty as [| | | | |? ? Hvs]; subst; [discriminate|]. now apply Forall2_len in Hvs. }
+  rewrite encode_fields in *. rewrite <- (encx_nil e vs (fields_of e sid) Hl) in *.
+  apply (decode_into_extras e k); try assumption. apply junks_nil.
+Qed.
+
+Lemma follows_nil t : follows t [].
+Proof. now left. Qed.
+
+(* C03: decode (encode v) = norm v, everything consumed *)
+Theorem roundtrip_struct e k sid vs :
+  wf_schema k e -> (S k <= 64)%nat -> has_type e (TStruct sid) (VStruct vs) ->
+  (need_list vs + k + 3 <= 2 * length (encode e sid (VStruct vs)) + 64)%nat ->
+  decode e sid (encode e sid (VStruct vs)) = DOk (norm_struct e sid (VStruct vs)) [].
+Proof.
+  intros Hwf Hk Hty Hfuel. unfold decode.
+  rewrite <- (app_nil_r (encode e sid (VStruct vs))). apply (roundtrip_into e k); try assumption.
+  - now apply (zero_struct_zlike e k).
+  - intros; apply follows_nil.
+  - now rewrite app_nil_r.
+Qed.
+
+(* ---------- boolean checkers are sound ---------- *)
+Lemma tags_asc_some s : forall p, tags_ascending (Some p) s = true -> ascending p s.
+Proof.
+  induction s as [|fd s IH]; intros p H; [exact I|]. cbn [tags_ascending] in H.
+  apply andb_true_iff in H. destruct H as [H H3]. apply andb_true_iff in H. destruct H as [H1 H2].
+  cbn [ascending]. repeat split; [lia|lia|now apply IH].
+Qed.
+Lemma tags_asc_none s : tags_ascending None s = true -> schema_ascending s.
+Proof.
+  destruct s as [|fd s]; intros H; [exact I|]. cbn [tags_ascending] in H.
+  apply andb_true_iff in H. destruct H as [H H3]. apply andb_true_iff in H. destruct H as [H1 _].
+  cbn [schema_ascending]. split; [lia|now apply tags_asc_some].
+Qed.
+Theorem wf_schema_b_sound k e : wf_schema_b k e = true -> wf_schema k e.
+Proof.
+  intros H. unfold wf_schema_b in H. rewrite forallb_forall in H.
+  assert (Hs : forall sid, fields_of e sid = [] \/ In (fields_of e sid) e).
+  { intros sid. unfold fields_of. destruct (nth_in_or_default sid e []); [now right|now left]. }
+  split.
+  - intros sid. destruct (Hs sid) as [->|Hin]; [exact I|]. specialize (H _ Hin).
+    apply andb_true_iff in H. now apply tags_asc_none.
+  - intros sid fd Hfd Hd. destruct (Hs sid) as [E|Hin]; [rewrite E in Hfd; contradiction|]. specialize (H _ Hin).
+    apply andb_true_iff in H. destruct H as [_ H]. rewrite forallb_forall in H. specialize (H _ Hfd).
+    apply andb_true_iff in H. destruct H as [H _]. destruct (fdef fd); [assumption|congruence].
+  - intros sid fd Hfd. destruct (Hs sid) as [E|Hin]; [rewrite E in Hfd; contradiction|]. specialize (H _ Hin).
+    apply andb_true_iff in H. destruct H as [_ H]. rewrite forallb_forall in H. specialize (H _ Hfd).
+    apply andb_true_iff in H. tauto.
+Qed.
+
+Lemma sc_typed_b_sound t v : sc_typed_b t v = true -> sc_typed t v.
+Proof. destruct t; destruct v; cbn [sc_typed_b sc_typed]; intros H; try discriminate; try exact I; try assumption; lia. Qed.
+Lemma is_i8_true x : is_i8 x = true -> x = TI8.
+Proof. destruct x; cbn; congruence. Qed.
+Lemma is_i8_false x : is_i8 x = false -> x <> TI8.
+Proof. destruct x; cbn; congruence. Qed.
+Theorem has_type_b_sound e : forall fuel t v, has_type_b fuel e t v = true -> has_type e t v.
+Proof.
+  induction fuel as [|f IH]; intros t v H; [discriminate|]. cbn [has_type_b] in H.
+  assert (Hsc : scalar_ty t && sc_typed_b t v = true -> has_type e t v).
+  { intros Hc. apply andb_true_iff in Hc. destruct Hc. apply HT_scalar; [assumption|now apply sc_typed_b_sound]. }
+  destruct v; try (now apply Hsc).
+  - destruct t; try discriminate. apply andb_true_iff in H. destruct H as [H1 H2]. apply is_i8_true in H1. subst.
+    apply HT_bytes. lia.
+  - destruct t; try discriminate.
+    + apply andb_true_iff in H. destruct H as [H H3]. apply andb_true_iff in H. destruct H as [H1 H2].
+      apply HT_vec; [apply is_i8_false; now destruct (is_i8 t)|lia|].
+      rewrite forallb_forall in H3. apply Forall_forall. intros y Hy. apply IH. now apply H3.
+    + apply andb_true_iff in H. destruct H as [H H4]. apply andb_true_iff in H. destruct H as [H H3].
+      apply andb_true_iff in H. destruct H as [H1 H2]. apply Nat.eqb_eq in H1. apply Nat.ltb_lt in H2.
+      apply HT_arr; [assumption|assumption|lia|].
+      rewrite forallb_forall in H4. apply Forall_forall. intros y Hy. apply IH. now apply H4.
+  - destruct t; try discriminate. apply andb_true_iff in H. destruct H as [H1 H2].
+    apply HT_map; [lia|]. rewrite forallb_forall in H2. apply Forall_forall. intros p Hp.
+    specialize (H2 _ Hp). apply andb_true_iff in H2. destruct H2. split; now apply IH.
+  - destruct t; try discriminate. apply HT_struct. clear Hsc. revert fs H. generalize (fields_of e sid). intros fds.
+    induction fds as [|fd fds IHf]; intros [|x vs] H; try discriminate; constructor.
+    + apply andb_true_iff in H. destruct H. now apply IH.
+    + apply andb_true_iff in H. destruct H. now apply IHf.
+Qed.
+Print Assumptions roundtrip_struct.
+Print Assumptions decode_into_extras.
